@@ -106,8 +106,8 @@ partial def build (pol : Pol) (regs : Array (Option Id)) (h : Heap) (j : Json) (
 def isNilPrim (n : Node) : Bool := match n.body with | .prim "nil" _ => true | _ => false
 def fIsSub (n : Node) : Bool := match n.body with | .sub .. => true | _ => false
 
-/-- merge.go mergeConfig on the heap: what is stored is a copy, existing objects are merged in place -/
-partial def mergeCfgH (pol : Pol) (h : Heap) (to frm : Id) : FR Heap := do
+/-- merge.go mergeConfig on the heap, written as a loop: kept only to say *why* the model's `mergeH` gave `none` -/
+partial def mergeCfgDiag (pol : Pol) (h : Heap) (to frm : Id) : FR Heap := do
   let some (_, _, _, _) := getSub h to | throw "merge into a non-object"
   let some (_, _, fd, fa) := getSub h frm | throw "merge from a non-object"
   let mut hh := h
@@ -127,7 +127,7 @@ partial def mergeCfgH (pol : Pol) (h : Heap) (to frm : Id) : FR Heap := do
         let on ← fnodeAt hh o
         if isNilPrim on || isNilPrim vn then funmodelled
         if fIsSub on && fIsSub vn then
-          hh ← mergeCfgH pol hh o v
+          hh ← mergeCfgDiag pol hh o v
         else
           let (h1, c) ← cpyF hh v (some to) k
           hh := setBody h1 to (.sub (dictSet td k c) ta)
@@ -154,11 +154,27 @@ partial def mergeCfgH (pol : Pol) (h : Heap) (to frm : Id) : FR Heap := do
       let vn ← fnodeAt hh v
       if isNilPrim on || isNilPrim vn then funmodelled
       if fIsSub on && fIsSub vn then
-        hh ← mergeCfgH pol hh o v
+        hh ← mergeCfgDiag pol hh o v
       else
         let (h1, c) ← cpyF hh v (some to) (idxName i)
         hh := setBody h1 to (.sub td (ta.set i c))
     appendF hh to (fa.drop l)
+
+def arrPolOf (s : String) : ArrPol :=
+  match s with
+  | "Append" => .append | "Prepend" => .prepend | "Replace" => .replace | "ReplaceArr" => .replaceArr | _ => .merge
+
+def mfuel : Nat := 100000
+
+/-- Merge on the heap is the model's `mergeH` (Model/Forest.lean; Lemmas/ForestMerge.lean proves its frame).  `none` is
+explained by the loop above: null meets value -> unmodelled, anything else is a harness error. -/
+def mergeCfgH (pol : Pol) (h : Heap) (to frm : Id) : FR Heap :=
+  match mergeH mfuel ffuel (arrPolOf pol.arr) h to frm with
+  | some r => pure r
+  | none =>
+    match mergeCfgDiag pol h to frm with
+    | .ok _ => throw "model mergeH gave none where the loop succeeds (fuel?)"
+    | .error e => throw e
 
 def fSegsOf (name : String) (idx : Int) (sep : Bool) : List String :=
   let base := if name.isEmpty then [] else if sep then name.splitOn "." else [name]
@@ -208,16 +224,16 @@ def fPrimOf (v : Json) : FR (String × String) :=
   else if let some (.bool b) := optField v "b" then pure ("bool", if b then "true" else "false")
   else funmodelled
 
-/-- is `anc` on the stored parent chain of `id` (or `id` itself) -/
-def onParentChain (h : Heap) : Nat → Id → Id → Bool
-  | 0, _, _ => false
-  | n+1, id, anc =>
-    if id == anc then true else
-    match h[id]? with
-    | some nd => (match nd.parent with
-      | some p => onParentChain h n p anc
-      | none => false)
-    | none => false
+/-- the segments of an address; indices beyond 64 are left to the content-level model (C20) -/
+def fSegs (name : String) (idx : Int) (sep : Bool) : FR (List Seg) := do
+  let ss := fSegsOf name idx sep
+  if ss.any (fun x => allDigits x && x.toNat! > 64) then funmodelled
+  pure (ss.map (fun x => if allDigits x then Seg.idx x.toNat! else Seg.name x))
+
+def ofSetRes (h : Heap) (regs : Array (Option Id)) : SetRes → FR (Heap × Array (Option Id))
+  | .ok h' => pure (h', regs)
+  | .err => pure (h, regs)
+  | .unmodelled => funmodelled
 
 /-- one operation; `none` = skipped (a register it needs is empty) -/
 def forestStep (h : Heap) (regs : Array (Option Id)) (op : Json) : FR (Heap × Array (Option Id)) := do
@@ -257,19 +273,9 @@ def forestStep (h : Heap) (regs : Array (Option Id)) (op : Json) : FR (Heap × A
     pure (h2, regs)
   | "set" =>
     let (k, v) ← fPrimOf ((optField op "val").getD .null)
-    let segs := fSegsOf name idx pol.pathSep
-    match segs.reverse with
-    | [] => funmodelled
-    | last :: revInit =>
-      match fwalk h (regId r) revInit.reverse with
-      | none => funmodelled
-      | some cont =>
-        if !(fIsSub (← fnodeAt h cont)) then funmodelled
-        -- the value being replaced must not be in use as a register's handle with children we lose track of: fine, ids stay
-        if allDigits last then
-          if last.toNat! > 64 then funmodelled
-          pure (setIdxPrim h cont last.toNat! k v, regs)
-        else pure (setNamedPrim h cont last k v, regs)
+    let segs ← fSegs name idx pol.pathSep
+    if segs.isEmpty then funmodelled
+    ofSetRes h regs (setPathH h (regId r) segs (.prim k v))
   | "remove" =>
     let segs := fSegsOf name idx pol.pathSep
     match segs.reverse with
@@ -292,21 +298,9 @@ def forestStep (h : Heap) (regs : Array (Option Id)) (op : Json) : FR (Heap × A
       if isNilPrim cn then funmodelled
       if fIsSub cn then pure (h, regs.set! (getNatF "to") (some c)) else pure (h, regs)
   | "setchild" =>
-    let segs := fSegsOf name idx pol.pathSep
-    match segs.reverse with
-    | [] => funmodelled
-    | last :: revInit =>
-      match fwalk h (regId r) revInit.reverse with
-      | none => funmodelled
-      | some cont =>
-        if !(fIsSub (← fnodeAt h cont)) then funmodelled
-        let ch := regId (getNatF "child")
-        -- a config can not be attached below itself: SetChild refuses (cyclic), nothing changes
-        if onParentChain h 64 cont ch then return (h, regs)
-        if allDigits last then
-          if last.toNat! > 64 then funmodelled
-          pure (attachIdx h cont last.toNat! ch, regs)
-        else pure (attachNamed h cont last ch, regs)
+    let segs ← fSegs name idx pol.pathSep
+    if segs.isEmpty then funmodelled
+    ofSetRes h regs (setChildH 64 h (regId r) segs (regId (getNatF "child")))
   | "read" | "diff" => pure (h, regs)
   | _ => funmodelled
 
